@@ -1,8 +1,163 @@
-"""C05 -- contracts (proof part under construction) + bounded stand-in."""
-from pyvc.runner import Bounded
+"""C05 -- size limits: no silent truncation when forbidden, no oversized passwords."""
+import z3
 
-LEVEL = "other"
-EXPLANATION = "bounded stand-in only so far: the contracts of this property are checked on the real functions over the stated finite domains (see coverage.bounded); nothing is counted as proved."
-ASSUMPTIONS = []
-CONTRACTS = []
-BOUNDED = [Bounded("c05", "harness/c05.py", descr="see harness docstring", timeout=900)]
+from contracts.trusted import COMMON, fresh_str
+from pyvc.contract import Bool, Bytes, Const, Contract, Int, NoneT, Obj, Str, Union
+from pyvc.runner import Bounded
+from pyvc.values import SBool, SDict, SObj, SStr, SStub
+
+LEVEL = "proof"
+H = "passlib/utils/handlers.py"
+EXPLANATION = (
+    "TruncateMixin._check_truncate_policy is verified (raises exactly when truncate_error and the BYTE length exceeds "
+    "the limit) and every call site (des_crypt, crypt16, django_des_crypt, lmhash, bcrypt's _norm_digest_args) is verified "
+    "to hand it the ENCODED password, so the limit counts bytes for text passwords too; validate_secret refuses more than "
+    "MAX_PASSWORD_SIZE; bcrypt's order of checks (encode, size, truncation policy, NUL refusal) is verified. Digest "
+    "dependence on every byte and the NUL refusal of the raw crypt routines are covered by the bounded stand-in."
+)
+ASSUMPTIONS = [
+    "utf-8 encoding is an uninterpreted injective function with len(s) <= len(utf8(s)) <= 4 len(s), identity on ASCII",
+    "MAX_PASSWORD_SIZE == 4096",
+]
+
+policy = Contract(
+    "_check_truncate_policy", f"{H}::TruncateMixin._check_truncate_policy",
+    params={"cls": Obj(fields={"truncate_size": Int(lo=1), "truncate_error": Bool()}), "secret": Bytes()},
+    raises_iff={"PasswordTruncateError": "cls.truncate_error and len(secret) > cls.truncate_size"},
+    descr="all byte strings, any limit",
+)
+
+policy_for_callers = Contract(
+    "_check_truncate_policy(by contract)", f"{H}::TruncateMixin._check_truncate_policy",
+    params=policy.params,
+    requires=["isinstance(secret, bytes)"],
+    raises_iff={"PasswordTruncateError": "cls.truncate_error and len(secret) > cls.truncate_size"},
+    returns="none",
+)
+
+validate_secret = Contract(
+    "validate_secret", f"{H}::validate_secret",
+    params={"secret": Union(Str(), Bytes(), NoneT(), Int())},
+    raises_iff={"PasswordSizeError": "isinstance(secret, (str, bytes)) and len(secret) > 4096", "TypeError": "not isinstance(secret, (str, bytes))"},
+    descr="every value",
+)
+
+
+def _self(relpath, cls, **extra):
+    f = {"truncate_size": Int(lo=1), "truncate_error": Bool(), "use_defaults": Bool(),
+         "_calc_checksum_backend": SStub(lambda it, a, k: fresh_str(it, "checksum"), "_calc_checksum_backend"), "salt": Str()}
+    f.update(extra)
+    return Obj(cls=(relpath, cls), fields=f)
+
+
+BYTELEN = "(len(secret.encode('utf-8')) if isinstance(secret, str) else len(secret))"
+TRUNC_IFF = f"self.use_defaults and self.truncate_error and {BYTELEN} > self.truncate_size"
+
+D = "passlib/handlers/des_crypt.py"
+DJ = "passlib/handlers/django.py"
+W = "passlib/handlers/windows.py"
+
+
+def _des_crypt_stub(it, args, kwargs):
+    o = SObj("des_crypt_instance", fields={"_calc_checksum": SStub(lambda i, a, k: fresh_str(i, "des_checksum"), "des_crypt._calc_checksum")})
+    return o
+
+
+CONTRACTS = [
+    policy,
+    validate_secret,
+    Contract(
+        "des_crypt._calc_checksum", f"{D}::des_crypt._calc_checksum",
+        params={"self": _self(D, "des_crypt"), "secret": Union(Str(), Bytes())},
+        raises_iff={"PasswordTruncateError": TRUNC_IFF},
+        descr="text and bytes passwords; the limit counts encoded bytes",
+    ),
+    Contract(
+        "crypt16._calc_checksum", f"{D}::crypt16._calc_checksum",
+        params={"self": _self(D, "crypt16"), "secret": Union(Str(), Bytes())},
+        globals={**COMMON, "_crypt_secret_to_key": SStub(lambda it, a, k: __import__("contracts.trusted", fromlist=["fresh_int"]).fresh_int(it, "key", 0), "_crypt_secret_to_key"),
+                 "des_encrypt_int_block": SStub(lambda it, a, k: __import__("contracts.trusted", fromlist=["fresh_int"]).fresh_int(it, "des", 0, 2**64 - 1), "des_encrypt_int_block")},
+        raises={"PasswordTruncateError": TRUNC_IFF, "ValueError": None},
+        ensures=[("accepted only when the policy allows it", f"not ({TRUNC_IFF})")],
+        descr="text and bytes passwords",
+    ),
+    Contract(
+        "django_des_crypt._calc_checksum", f"{DJ}::django_des_crypt._calc_checksum",
+        params={"self": _self(DJ, "django_des_crypt"), "secret": Union(Str(), Bytes())},
+        globals={"des_crypt": SStub(_des_crypt_stub, "des_crypt(salt=...)"), "_import_des_crypt": SStub(lambda it, a, k: None, "_import_des_crypt")},
+        raises_iff={"PasswordTruncateError": TRUNC_IFF},
+        descr="text and bytes passwords",
+    ),
+    Contract(
+        "lmhash._calc_checksum", f"{W}::lmhash._calc_checksum",
+        params={"self": _self(W, "lmhash", encoding="cp437", raw=SStub(lambda it, a, k: fresh_str(it, "raw", "bytes"), "lmhash.raw")), "secret": Union(Str(), Bytes())},
+        globals={"hexlify": COMMON["hexlify"]},
+        raises={"PasswordTruncateError": "self.use_defaults and self.truncate_error and (len(secret.upper().encode('cp437')) if isinstance(secret, str) else len(secret)) > self.truncate_size",
+                "UnicodeEncodeError": "isinstance(secret, str)"},
+        ensures=[("accepted only when the encoded (upper-cased) password fits or truncation is allowed",
+                  "not (self.use_defaults and self.truncate_error and (len(secret.upper().encode('cp437')) if isinstance(secret, str) else len(secret)) > self.truncate_size)")],
+        descr="text and bytes passwords, single-byte code page",
+    ),
+]
+REGISTRY = [policy_for_callers]
+
+BOUNDED = [Bounded("c05", "harness/c05.py", descr="boundary-length multi-byte passwords on all truncating hashers; 4095/4096/4097; NUL positions", timeout=900)]
+
+MUTANTS = [
+    ("policy compares with >=", H, "        if cls.truncate_error and len(secret) > cls.truncate_size:\n", "        if cls.truncate_error and len(secret) >= cls.truncate_size:\n", "refute"),
+    ("des_crypt checks the text length again", D, "            self._check_truncate_policy(\n                secret.encode(\"utf-8\") if isinstance(secret, str) else secret\n            )\n\n        return self._calc_checksum_backend(secret)", "            self._check_truncate_policy(secret)\n\n        return self._calc_checksum_backend(secret)", "refute"),
+    ("crypt16 checks before encoding", D, "        if isinstance(secret, str):\n            secret = secret.encode(\"utf-8\")\n\n        # check for truncation (during .hash() calls only)\n        if self.use_defaults:\n            self._check_truncate_policy(secret)\n\n        # parse salt value", "        # check for truncation (during .hash() calls only)\n        if self.use_defaults:\n            self._check_truncate_policy(secret)\n\n        if isinstance(secret, str):\n            secret = secret.encode(\"utf-8\")\n\n        # parse salt value", "refute"),
+    ("django_des_crypt skips the policy", DJ, "        if self.use_defaults:\n            self._check_truncate_policy(\n                secret.encode(\"utf-8\") if isinstance(secret, str) else secret\n            )\n        return des_crypt(", "        return des_crypt(", "refute"),
+    ("lmhash checks before upper-casing/encoding", W, "            encoded = secret\n            if isinstance(encoded, str):\n                encoded = encoded.upper().encode(self.encoding)\n            self._check_truncate_policy(encoded)", "            self._check_truncate_policy(secret)", "refute"),
+    ("validate_secret off by one", H, "    if len(secret) > MAX_PASSWORD_SIZE:\n        raise exc.PasswordSizeError(MAX_PASSWORD_SIZE)", "    if len(secret) > MAX_PASSWORD_SIZE + 1:\n        raise exc.PasswordSizeError(MAX_PASSWORD_SIZE)", "refute"),
+]
+
+# ---- bcrypt: order of checks in _norm_digest_args ------------------------------------------------------
+B = "passlib/handlers/bcrypt.py"
+
+
+def _prefix_preserving(name):
+    def call(it, args, kwargs):
+        src = it.resolve(args[0])
+        r = fresh_str(it, name, "bytes")
+        e = it.to_z3(src)
+        # contract of the helper: at least 72 bytes... only the first 72 bytes matter to bcrypt; the helpers keep
+        # the first min(len, 72) bytes of a long input (utf8_truncate may add up to 3 bytes after position 72)
+        it.run.assume(z3.Implies(z3.Length(e) >= 72, z3.SubString(r.e, 0, 72) == z3.SubString(e, 0, 72)))
+        return r
+
+    return SStub(call, name, trusted=f"{name}: keeps the first 72 bytes")
+
+
+ENC = "(secret.encode('utf-8') if isinstance(secret, str) else secret)"
+for _ident in ("$2a$", "$2b$", "$2y$"):
+    CONTRACTS.append(Contract(
+        f"bcrypt._norm_digest_args[{_ident}]", f"{B}::_BcryptCommon._norm_digest_args",
+        params={
+            "cls": Obj(cls=(B, "_BcryptCommon"), is_class=True, fields={
+                "_require_valid_utf8_bytes": Bool(), "_has_2a_wraparound_bug": Bool(), "_lacks_2b_support": Bool(), "_lacks_2y_support": Bool(),
+                "_lacks_20_support": Bool(), "_fallback_ident": Union(Const("$2a$"), Const("$2b$")), "truncate_size": 72, "truncate_error": Bool(), "name": "bcrypt"}),
+            "secret": Union(Str(), Bytes()), "ident": Const(_ident), "new": Bool(),
+        },
+        globals={"utf8_truncate": _prefix_preserving("utf8_truncate"), "utf8_repeat_string": _prefix_preserving("utf8_repeat_string"), "repeat_string": _prefix_preserving("repeat_string")},
+        raises={  # most specific class first
+            "PasswordTruncateError": f"len({ENC}) <= 4096 and new and cls.truncate_error and len({ENC}) > 72",
+            "PasswordSizeError": f"len({ENC}) > 4096",
+            "PasswordValueError": f"len({ENC}) <= 4096 and not (new and cls.truncate_error and len({ENC}) > 72) and b'\\x00' in {ENC}",
+        },
+        ensures=[
+            ("accepted only within the size limit", f"len({ENC}) <= 4096"),
+            ("accepted only if truncation is allowed or unnecessary", f"not (new and cls.truncate_error and len({ENC}) > 72)"),
+            ("no NUL byte is handed to the backend", f"b'\\x00' not in {ENC}"),
+            ("the backend sees the first 72 bytes of the encoded password", f"result[0][0:72] == {ENC}[0:72]"),
+            ("ident handed to the backend is a supported one", "result[1] == ident or result[1] == cls._fallback_ident"),
+        ],
+        prune_timeout_ms=80,
+        descr=f"ident {_ident}; text and bytes passwords; every backend capability flag combination",
+    ))
+
+MUTANTS += [
+    ("bcrypt: NUL check before the size check is dropped for long input", B, "        if _BNULL in secret:\n            raise uh.exc.NullPasswordError(cls)\n", "        if _BNULL in secret[:72]:\n            raise uh.exc.NullPasswordError(cls)\n", "refute"),
+    ("bcrypt: truncation policy also on verify", B, "        if new:\n            cls._check_truncate_policy(secret)\n", "        cls._check_truncate_policy(secret)\n", "refute"),
+    ("bcrypt: wraparound workaround cuts at 71", B, "                secret = secret[:72]\n\n        # special case handling", "                secret = secret[:71]\n\n        # special case handling", "refute"),
+]
